@@ -137,6 +137,57 @@ thread_local! {
     static CTX_MADE: std::cell::Cell<bool> = const { std::cell::Cell::new(false) };
 }
 
+/// The builder's third terminal: `build(a).bounded(n).register()` - the mailbox the builder was
+/// given is the mailbox the registered service has. One client registers the actor and sends.
+struct ViaRegister {
+    n: usize,
+    sends: u32,
+    work: Work,
+}
+
+impl crate::check::Scene for ViaRegister {
+    fn roles(&self) -> Vec<RoleCfg> {
+        vec![RoleCfg { default_work: self.work, ..RoleCfg::default() }]
+    }
+    fn pre(&self) {
+        use futures::FutureExt as _;
+        let _ = hannibal::Addr::<crate::world::P>::unregister().now_or_never();
+    }
+    fn setup(&self, exec: &crate::vexec::Exec) {
+        use hannibal::prelude::*;
+        crate::world::W.with(|w| w.borrow_mut().default_role[0] = 0);
+        let (n, sends) = (self.n, self.sends);
+        exec.spawn_client(0, async move {
+            let probe = crate::world::Probe::<0>::new(0);
+            let addr = hannibal::build(probe).bounded(n).register().await.expect("register").0;
+            let h = crate::ops::Handles::with_addr(addr);
+            crate::ops::run_client(0, h, (0..sends).map(|k| Op::Send(H::Addr(0), 100 + k)).collect()).await;
+        });
+    }
+    fn check(&self, t: &Trace) -> Vec<Violation> {
+        let mut out = vec![];
+        let (mut returned, mut entered) = (0usize, 0usize);
+        for e in t.log {
+            match e.ev {
+                // (the client's last logged operation is its letting go of the handle)
+                Ev::End { c: 0, i, r: Res::Ok } if (i as u32) < self.sends => returned += 1,
+                Ev::Enter { a: 0, cb: Cb::Msg(_), .. } => entered += 1,
+                _ => {}
+            }
+            crate::check::oblige("backpressure-bound");
+            if returned > entered + self.n {
+                out.push(Violation {
+                    clause: "backpressure-bound",
+                    key: format!("C12/bound-exceeded/via-register/mailbox=B{}", self.n),
+                    detail: format!("{} sends had returned Ok whose messages were still in the bounded({}) mailbox of an actor built with .bounded({}).register()", returned - entered, self.n, self.n),
+                });
+                break;
+            }
+        }
+        out
+    }
+}
+
 fn make_case(progs: &[Vec<L>], mailbox: Mailbox, work: Work, interval_with: bool, stopper: bool, bound: Option<u32>) -> Case {
     let ctx_made = CTX_MADE.with(|c| c.get());
     let mut clients = vec![];
@@ -265,6 +316,17 @@ fn plain_cases(tier: Tier) -> Vec<Case> {
                 v.push(make_case(&[a.clone()], mb, work, true, false, None));
                 v.push(make_case(&[a.clone(), vec![L::CallAddr]], mb, work, true, true, None));
             }
+        }
+    }
+    // the builder's register() terminal keeps the mailbox it was given
+    for n in [0usize, 1, 2] {
+        for work in [Work { sleep: 2, ..Work::default() }, Work { yields: 1, ..Work::default() }] {
+            v.push(Case {
+                desc: format!("backpressure{} build().bounded({n}).register(), {} sends, work={}y{}s", crate::progscene::variant_tag(), n + 3, work.yields, work.sleep),
+                exec: ExecCfg { horizon: 20, ..ExecCfg::default() },
+                bound: None,
+                scene: Box::new(ViaRegister { n, sends: n as u32 + 3, work }),
+            });
         }
     }
     // a handler that takes *long* (100 s on the virtual clock): a parked send stays parked however
